@@ -107,6 +107,7 @@ void           calib_end();
 uint32_t       calib_locked_blocks();
 uint32_t       susp_seen();       // executions of such blocks by a client that did not hold the container's lock
 uint32_t       susp_fired();      // preemptions taken there
+uint32_t       spin_yields();     // forced yields of a client that was busy-waiting inside one call
 uint32_t       relock_fired();    // calls that re-acquired the container's lock and were stalled there
 uint32_t       fine_fired();      // basic-block preemptions taken
 uint32_t       fine_seen();       // basic blocks executed by clients inside calls while holding no lock
